@@ -21,12 +21,13 @@ using Str = std::basic_string<Ch>;
 constexpr char const* SUBJ = "string_view<" VF_CHAR_NAME ">";
 constexpr auto NPOS        = static_cast<std::size_t>(-1);
 
-// alphabet: 'a', a character >= 0x80 (sign of compare!), and (thorough) the null character
+// alphabet: 'a', the all-ones character (negative where the type is signed, collides with eof()), the null character, and a fourth
+// character for the random part
 Ch alpha(unsigned i)
 {
     switch (i) {
     case 0: return Ch('a');
-    case 1: return sizeof(Ch) == 1 ? static_cast<Ch>(0xE9) : static_cast<Ch>(~Ch(0x16)); // top bit set: sign of compare for every character type
+    case 1: return static_cast<Ch>(-1); // all bits set: top bit (sign of compare for every character type) and equal to eof() after to_int_type for the wide types
     case 2: return Ch(0);
     default: return sizeof(Ch) == 1 ? Ch('b') : static_cast<Ch>(Ch('a') + 0x100); // wide: equal to 'a' modulo 256 (table/narrowing shortcuts collide)
     }
@@ -351,6 +352,23 @@ void one_pair(Str const& h, Str const& n, std::vector<std::size_t> const& poss, 
         Ctx c{E{bb.data() + off, h.size()}, S{bb.data() + off, h.size()}, E{nb.data(), n.size()}, S{nb.data(), n.size()}, nz.data(),
             n.size(), "embedded", hcls, ncls, vf::mix(hb, 2), desc};
         drive(c, poss, counts);
+    }
+    // presentation C: the needle is a sub-view of the haystack's OWN buffer (first and last occurrence): pointer-identity shortcuts
+    // must not change an answer
+    if (!n.empty() || !h.empty()) {
+        std::size_t first = h.find(n), last = h.rfind(n);
+        if (first != Str::npos) {
+            vf::Buf<Ch> hb_(h.size());
+            for (std::size_t i = 0; i < h.size(); ++i) { hb_[i] = h[i]; }
+            for (std::size_t off : {first, last}) {
+                if (off == last && last == first && off != first) { continue; }
+                Ctx c{E{hb_.data(), h.size()}, S{hb_.data(), h.size()}, E{hb_.data() + off, n.size()}, S{hb_.data() + off, n.size()}, nz.data(), n.size(),
+                    off == 0 ? "needle-aliases-haystack-begin" : "needle-aliases-haystack-inner", hcls, ncls, vf::mix(hb, 3 + off), desc};
+                drive(c, poss, counts);
+                if (first == last) { break; }
+            }
+            hb_.check("haystack (aliased presentation)");
+        }
     }
     nz.check("needle-z");
 }
